@@ -36,6 +36,12 @@ func (h *hashMergeStrategy) evaluate(m *MethodEvaluator) error {
 		return err
 	}
 
+	if len(evaluatedArgs) == 0 {
+		m.parser.SetLastEvaluatedT(m.evaluatedObjectT)
+
+		return nil
+	}
+
 	hashT := m.evaluatedObjectT.DeepCopy()
 
 	hashT.MergeHash(evaluatedArgs[0])
@@ -67,6 +73,12 @@ func (h *hashDestructionMergeStrategy) evaluate(m *MethodEvaluator) error {
 	err = checkAndPropagateArgs(m, "Hash", methodT, evaluatedArgs)
 	if err != nil {
 		return err
+	}
+
+	if len(evaluatedArgs) == 0 {
+		m.parser.SetLastEvaluatedT(m.evaluatedObjectT)
+
+		return nil
 	}
 
 	hashT := m.evaluatedObjectT
